@@ -74,6 +74,7 @@ static int g_virt_dump_pct;	/* percentage of spied calls dumped for the driver *
 static uint64_t g_vd_state = 88172645463325252ULL;	/* separate stream: does not perturb the case */
 static long g_stat_vops, g_stat_vdump, g_stat_reloc, g_stat_steal, g_stat_vfail;
 static int g_virt_fail_reported;
+static const char *g_virt_sigtag = "";	/* scenario prefix of the voice-table signatures */
 
 static int vd_chance(void)
 {
@@ -169,7 +170,7 @@ static void after_vop(struct context_data *ctx, const char *op, int dumped)
 	bad = check_vinv(ctx);
 	if (bad && !g_virt_fail_reported) {
 		g_virt_fail_reported = 1;
-		printf("O virt:%s after %s: %s\n", op, op, bad);
+		printf("O virt:%s%s after %s: %s\n", g_virt_sigtag, op, op, bad);
 	}
 }
 
@@ -202,7 +203,7 @@ static void after_vopf(struct context_data *ctx, const char *op, int dumped)
 	bad = check_vinv(ctx);
 	if (bad && !g_virt_fail_reported) {
 		g_virt_fail_reported = 1;
-		printf("O virt:%s after %s: %s\n", op, op, bad);
+		printf("O virt:%s%s after %s: %s\n", g_virt_sigtag, op, op, bad);
 	}
 }
 
@@ -295,11 +296,6 @@ static int spy_setpatch(struct context_data *ctx, int chn, int ins, int smp, int
 	int reloc = 0;
 	if (chn < 0 || chn >= p->virt.num_tracks)
 		printf("A opok setpatch on channel %d outside [0,num_tracks=%d)\n", chn, p->virt.num_tracks);
-	if (!HAS_QUIRK(QUIRK_VIRTUAL) && (nna != 0 || dct != 0))
-		printf("A opok setpatch nna=%d dct=%d without QUIRK_VIRTUAL\n", nna, dct);
-	if (HAS_QUIRK(QUIRK_VIRTUAL) && p->virt.maxvoc > p->virt.virt_channels - p->virt.num_tracks)
-		printf("A opok maxvoc %d > background slots %d\n", p->virt.maxvoc,
-		       p->virt.virt_channels - p->virt.num_tracks);
 	{
 		int i, nfree = 0;
 		for (i = 0; i < p->virt.maxvoc; i++)
@@ -314,6 +310,14 @@ static int spy_setpatch(struct context_data *ctx, int chn, int ins, int smp, int
 	r = real_virt_setpatch(ctx, chn, ins, smp, note, key, nna, dct, dca);
 	if (voc0 > -1 && r >= 0 && r != chn)
 		reloc = 1;
+	/* Virt.SetPatchOk: as many background slots as voices (the geometry libxmp_virt_on gives a module that has QUIRK_VIRTUAL
+	 * at start), or no NNA relocation.  A player-mode switch can turn QUIRK_VIRTUAL on for a module started without
+	 * background slots; judged after the call (the old voice of the channel now sits on another channel), whatever guards
+	 * the relocation in the code */
+	if (voc0 > -1 && voc0 < p->virt.maxvoc && p->virt.voice_array[voc0].chn != -1 && p->virt.voice_array[voc0].chn != chn &&
+	    p->virt.maxvoc > p->virt.virt_channels - p->virt.num_tracks)
+		printf("A opok NNA relocation of voice %d from channel %d to channel %d with maxvoc %d > background slots %d\n", voc0, chn,
+		       p->virt.voice_array[voc0].chn, p->virt.maxvoc, p->virt.virt_channels - p->virt.num_tracks);
 	g_stat_reloc += reloc;
 	if (r < 0)
 		g_stat_vfail++;
@@ -656,7 +660,7 @@ void __wrap_libxmp_process_fx(struct context_data *ctx, struct channel_data *xc,
 /* ------------------------------------------------------------------ */
 /* synthetic modules                                                   */
 /* ------------------------------------------------------------------ */
-static long g_carry_modules, g_carry_jumps;
+static long g_carry_modules, g_carry_jumps, g_hostile_spd, g_modesw, g_modesw_ok, g_modesw_seqdrop, g_modesw_lastseq;
 static const int flow_fx[] = {
 	FX_JUMP, FX_BREAK, FX_IT_BREAK, FX_EXTENDED, FX_EXTENDED, FX_PATT_DELAY, FX_IT_ROWDELAY, FX_SPEED, FX_SPEED,
 	FX_S3M_SPEED, FX_S3M_BPM, FX_IT_BPM, FX_ICE_SPEED, FX_LINE_JUMP, FX_SPEED_CP, FX_ULT_TEMPO, FX_GLOBALVOL,
@@ -733,6 +737,13 @@ static int create_synth(struct context_data *ctx, char *desc, size_t dsz)
 	}
 	mod->rst = vrng_chance(60) ? 0 : vrng_below(mod->len);
 	mod->spd = vrng_chance(70) ? 6 : vrng_range(1, carry ? 6 : 31);
+	if (vrng_chance(12)) {
+		/* header speeds as the loaders with a 16-bit speed field can deliver them: libxmp_load_epilogue must bring them
+		 * back into 1..255 */
+		static const int hostile[] = { 255, 256, 0x120, 0xffff, 0, -3, 0x100, 0x7fff };
+		mod->spd = hostile[vrng_below(8)];
+		g_hostile_spd++;
+	}
 	mod->bpm = vrng_chance(70) ? 125 : vrng_range(20, 255);
 
 	if (libxmp_init_pattern(mod) < 0)
@@ -1315,7 +1326,7 @@ static int do_buffer(xmp_context c, struct context_data *ctx, int frameno, int r
  * record S1 is dumped.  The driver computes S1 from S0 with Fx.readRow + Seq.st26Step. */
 #define FXCH 4
 struct fx_cfg {
-	int rmode, quirk, flow, flags, gvolbase, far;
+	int rmode, quirk, flow, flags, gvolbase, far, notes, voices;
 	double tf;
 };
 
@@ -1353,6 +1364,12 @@ static int create_fx_module(struct context_data *ctx, const struct fx_cfg *cf)
 	if (mod->xxs[0].data == NULL)
 		return -1;
 	mod->xxs[0].data += 4;
+	if (cf->notes) {
+		/* notes are played: a looped sample keeps its voice busy, "continue" keeps the old voice in the background */
+		mod->xxs[0].flg = XMP_SAMPLE_LOOP;
+		if (cf->quirk & QUIRK_VIRTUAL)
+			mod->xxi[0].sub[0].nna = XMP_INST_NNA_CONT;
+	}
 	m->quirk |= cf->quirk;
 	m->read_event_type = cf->rmode;
 	m->flow_mode = cf->flow;
@@ -1384,6 +1401,15 @@ static const int setup_fx[] = {
 
 /* a flow effect without note delay (a delayed event would fire inside a later frame) */
 static int g_fx_far;	/* the module of this configuration carries FAR extras */
+static int g_fx_notes;	/* events also carry notes (voices are allocated; with few voices some notes get none) */
+static long g_fx_novoice;
+static void maybe_note(struct xmp_event *e)
+{
+	if (g_fx_notes && vrng_chance(55)) {
+		e->note = (uint8)vrng_range(37, 84);
+		e->ins = 1;
+	}
+}
 static void gen_setup_fx(uint8 *t, uint8 *pr)
 {
 	int x = setup_fx[vrng_below((int)(sizeof(setup_fx) / sizeof(setup_fx[0])))];
@@ -1467,13 +1493,23 @@ static int fx_experiment(xmp_context c, struct context_data *ctx, int fxt, int f
 	if (vrng_chance(75)) {
 		e = &mod->xxt[mod->xxp[pat]->index[vrng_below(FXCH)]]->event[0];
 		gen_setup_fx(&e->fxt, &e->fxp);
+		maybe_note(e);
 		if (vrng_chance(25)) {
 			e = &mod->xxt[mod->xxp[pat]->index[vrng_below(FXCH)]]->event[0];
 			gen_setup_fx(&e->f2t, &e->f2p);
 		}
 	}
 	/* the event under test */
+	if (g_fx_notes) {
+		/* notes on other channels of the set-up row and of the row under test use up the voices */
+		for (k = 0; k < FXCH; k++) {
+			maybe_note(&mod->xxt[mod->xxp[pat]->index[k]]->event[0]);
+			if (k != tch)
+				maybe_note(&mod->xxt[mod->xxp[pat]->index[k]]->event[r]);
+		}
+	}
 	e = &mod->xxt[mod->xxp[pat]->index[tch]]->event[r];
+	maybe_note(e);
 	if (lane == 0) {
 		e->fxt = (uint8)fxt;
 		e->fxp = (uint8)fxp;
@@ -1614,6 +1650,22 @@ static int run_fxall(uint64_t seed, int cfgidx, int thorough)
 		cf.flags = 0;
 	}
 	g_fx_far = cf.far;
+	/* notes + few voices: every Impulse Tracker configuration (virtual channels, NNA continue, 1 / 2 / 4 voices: a note that gets
+	 * no voice must still run its effects) and a third of the others */
+	cf.notes = 0;
+	cf.voices = 0;
+	if (!cf.far && cfgidx < 1000) {
+		static const int vv[] = { 1, 2, 4 };
+		if (cf.rmode == READ_EVENT_IT) {
+			cf.notes = 1;
+			cf.quirk |= QUIRK_VIRTUAL;
+			cf.voices = vv[(cfgidx / 5) % 3];
+		} else if (cf.rmode != READ_EVENT_MED && vrng_chance(33)) {	/* (the MED reader needs MED extras for notes) */
+			cf.notes = 1;
+			cf.voices = vrng_chance(50) ? vv[vrng_below(3)] : 0;
+		}
+	}
+	g_fx_notes = cf.notes;
 	g_nseen = 0;
 	c = xmp_create_context();
 	ctx = (struct context_data *)c;
@@ -1625,8 +1677,10 @@ static int run_fxall(uint64_t seed, int cfgidx, int thorough)
 	}
 	if (cf.flags)
 		xmp_set_player(c, XMP_PLAYER_FLAGS, cf.flags);
-	printf("B fxall %llu cfg=%d rmode=%d quirk=%#x flow=%#x flags=%d tf=%g gvolbase=%d far=%d\n", (unsigned long long)seed, cfgidx,
-	       cf.rmode, cf.quirk, cf.flow, cf.flags, cf.tf, cf.gvolbase, cf.far);
+	if (cf.voices)
+		xmp_set_player(c, XMP_PLAYER_VOICES, cf.voices);
+	printf("B fxall %llu cfg=%d rmode=%d quirk=%#x flow=%#x flags=%d tf=%g gvolbase=%d far=%d notes=%d voices=%d\n", (unsigned long long)seed, cfgidx,
+	       cf.rmode, cf.quirk, cf.flow, cf.flags, cf.tf, cf.gvolbase, cf.far, cf.notes, cf.voices);
 	fprintf(stderr, "CASE fxall %llu cfg=%d\n", (unsigned long long)seed, cfgidx);
 	if (xmp_start_player(c, 8000, XMP_FORMAT_MONO) < 0) {
 		printf("N start_failed 1\nZ\n");
@@ -1658,6 +1712,140 @@ static int run_fxall(uint64_t seed, int cfgidx, int thorough)
 	return 0;
 }
 
+/* the sequence labels of the orders: every one names a kept sequence or is 0xff */
+static int seqctl_bad_order(struct context_data *ctx)
+{
+	int k, bad = -1;
+	for (k = 0; k < ctx->m.mod.len && k < XMP_MAX_MOD_LENGTH; k++)
+		if (ctx->p.sequence_control[k] != 0xff && ctx->p.sequence_control[k] >= ctx->m.num_sequences)
+			bad = k;
+	return bad;
+}
+
+/* xmp_set_player(XMP_PLAYER_MODE / XMP_PLAYER_CFLAGS) while playing: the module is rescanned (sequences, entry
+ * points, labels, order info, quirks change; orders and patterns stay), p->sequence is fixed up.  The new tables
+ * are dumped for the driver (Seq.rescanFix = ctl kind 8 is evaluated against them) and the sequence clause of
+ * the property is evaluated at once.  Most of the time the player is first moved into the LAST sequence, the
+ * index most likely to fall out of a shorter sequence table. */
+static int do_mode_switch(xmp_context c, struct context_data *ctx, int *stopped)
+{
+	struct module_data *m = &ctx->m;
+	int pre[NST], post[NST], r, val, nseq0 = m->num_sequences, is_mode;
+
+	if (m->num_sequences > 1 && vrng_chance(65)) {
+		int k = vrng_chance(65) ? m->num_sequences - 1 : (int)vrng_below(m->num_sequences);
+		int ep = m->seq_data[k].entry_point;
+		get_state(ctx, pre);
+		xmp_set_position(c, ep);
+		get_state(ctx, post);
+		printf("D ctl 0 %d", ep);
+		put_state(pre);
+		printf("\nE c");
+		put_state(post);
+		printf("\n");
+		g_ctl++;
+		*stopped = (ctx->p.pos == -2);
+		if (ctx->p.sequence == m->num_sequences - 1)
+			g_modesw_lastseq++;
+	}
+	get_state(ctx, pre);
+	is_mode = vrng_chance(80);
+	if (is_mode) {
+		val = vrng_chance(35) ? XMP_MODE_MOD : (int)vrng_range(XMP_MODE_AUTO, XMP_MODE_ITSMP);
+		r = xmp_set_player(c, XMP_PLAYER_MODE, val);
+	} else {
+		val = ctx->p.flags ^ XMP_FLAGS_VBLANK;
+		r = xmp_set_player(c, XMP_PLAYER_CFLAGS, val);
+	}
+	get_state(ctx, post);
+	g_modesw++;
+	if (r == 0)
+		g_modesw_ok++;
+	if (m->num_sequences < nseq0)
+		g_modesw_seqdrop++;
+	/* "the sequence index is valid", right after the call */
+	if (ctx->p.sequence < 0 || ctx->p.sequence >= m->num_sequences) {
+		if (first_time("sequence:range"))
+			printf("O sequence:range after xmp_set_player(%s, %d) = %d: sequence %d not in [0,%d) (%d sequences before the call)\n",
+			       is_mode ? "MODE" : "CFLAGS", val, r, ctx->p.sequence, m->num_sequences, nseq0);
+		return -1;
+	}
+	if (seqctl_bad_order(ctx) >= 0) {
+		int bad = seqctl_bad_order(ctx);
+		printf("O sequence:control_table after xmp_set_player(%s, %d): order %d is labelled with sequence %d but the module has %d sequence(s)\n",
+		       is_mode ? "MODE" : "CFLAGS", val, bad, ctx->p.sequence_control[bad], m->num_sequences);
+		return -1;
+	}
+	dump_module(ctx);
+	if (ctx->m.mod.len > 0)
+		printf("D wf\nE w ? %d\n", c_ordwf(ctx));
+	printf("D ctl 8 %d", val);
+	put_state(pre);
+	printf("\nE c");
+	put_state(post);
+	printf("\n");
+	return 0;
+}
+
+/* modeprobe: a module started WITHOUT virtual channels is switched to Impulse Tracker mode (QUIRK_VIRTUAL on, no
+ * background channels in the voice tables), then channel 0 gets a note, "NNA continue" (S74) and a new note while
+ * another voice is free.  The spies evaluate the voice-table invariant after every virtual.c call. */
+static int run_modeprobe(void)
+{
+	struct fx_cfg cf;
+	xmp_context c;
+	struct context_data *ctx;
+	struct xmp_event e;
+	int k;
+	memset(&cf, 0, sizeof(cf));
+	cf.rmode = READ_EVENT_MOD;
+	cf.flow = FLOW_MODE_GENERIC;
+	cf.gvolbase = 0x40;
+	cf.tf = DEFAULT_TIME_FACTOR;
+	cf.notes = 1;
+	g_nseen = 0;
+	g_virt_fail_reported = 0;
+	c = xmp_create_context();
+	ctx = (struct context_data *)c;
+	if (create_fx_module(ctx, &cf) < 0 || xmp_start_player(c, 8000, XMP_FORMAT_MONO) < 0) {
+		printf("N modeprobe_failed 1\n");
+		xmp_release_module(c);
+		xmp_free_context(c);
+		return -1;
+	}
+	g_virt_sigtag = "modeswitch:";
+	printf("B modeprobe non-virtual module -> XMP_MODE_IT -> note on the last channel; note, S74, note on channel 0\n");
+	fprintf(stderr, "CASE modeprobe\n");
+	xmp_play_frame(c);
+	k = xmp_set_player(c, XMP_PLAYER_MODE, XMP_MODE_IT);
+	printf("N modeprobe_mode_accepted %d\n", k == 0);
+	for (k = 0; k < 4; k++) {
+		/* note on the LAST track channel (the one the relocation falls back to), note on channel 0, S74, note on channel 0 */
+		int chn = k == 0 ? FXCH - 1 : 0;
+		memset(&e, 0, sizeof(e));
+		if (k == 2) {
+			e.fxt = FX_IT_INSTFUNC;
+			e.fxp = 4;	/* S74: new note action "continue" */
+		} else {
+			e.note = (uint8)(60 + k);
+			e.ins = 1;
+		}
+		xmp_inject_event(c, chn, &e);
+		if (xmp_play_frame(c) != 0)
+			break;
+		if (check_vinv(ctx) && !g_virt_fail_reported) {
+			g_virt_fail_reported = 1;
+			printf("O virt:modeswitch:tables after step %d of the mode probe: %s\n", k, check_vinv(ctx));
+		}
+	}
+	g_virt_sigtag = "";
+	printf("Z\n");
+	xmp_end_player(c);
+	xmp_release_module(c);
+	xmp_free_context(c);
+	return 0;
+}
+
 static int run_case(uint64_t cs, int nframes, const char *modname)
 {
 	xmp_context c;
@@ -1666,7 +1854,7 @@ static int run_case(uint64_t cs, int nframes, const char *modname)
 	static const double tfs[] = { 0.1, 0.25, 0.5, 1.0, 1.0, 2.0, 3.9, 4.0, 7.5, 10.0, 10.0, 25.0, 100.0 };
 	int rate, format, voices, i, ret, fails = 0, prev_loop = -1, stopped = 0, ends = 0;
 	int tf_mode, tf_called = 0, speed0, pending_delay = 0, inject_pending = 0;
-	int pb_mode, pb_loop, pb_ended = 0;
+	int pb_mode, pb_loop, pb_ended = 0, modesw_pct;
 	int synth = !strcmp(modname, "@synth");
 	char desc[256] = "";
 	int pre[NST], post[NST];
@@ -1695,11 +1883,12 @@ static int run_case(uint64_t cs, int nframes, const char *modname)
 	tf_mode = vrng_below(10);	/* 0,1: set a tempo factor right after start; 2: also mid-play */
 	pb_mode = vrng_below(3);	/* 0: xmp_play_frame only; 1: now and then a xmp_play_buffer call; 2: half of the steps */
 	pb_loop = vrng_below(3);	/* loop limit of most buffer calls of this case */
+	modesw_pct = vrng_chance(40) ? 3 : 0;	/* player-mode / timing switches between the frames */
 	if (voices != 128)
 		xmp_set_player(c, XMP_PLAYER_VOICES, voices);
 	speed0 = ctx->p.speed;
-	printf("B case %llu %s rate=%d fmt=%d voices=%d tfmode=%d pb=%d/%d %s\n", (unsigned long long)cs, modname, rate, format,
-	       voices, tf_mode, pb_mode, pb_loop, desc);
+	printf("B case %llu %s rate=%d fmt=%d voices=%d tfmode=%d pb=%d/%d msw=%d %s\n", (unsigned long long)cs, modname, rate, format,
+	       voices, tf_mode, pb_mode, pb_loop, modesw_pct, desc);
 	/* if the library aborts inside this case the buffered stdout may be lost: name the case on stderr */
 	fprintf(stderr, "CASE case %llu %s rate=%d fmt=%d voices=%d tfmode=%d %s\n", (unsigned long long)cs, modname, rate,
 		format, voices, tf_mode, desc);
@@ -1716,10 +1905,7 @@ static int run_case(uint64_t cs, int nframes, const char *modname)
 		/* "the sequence index is valid": every order is labelled with a kept sequence or 0xff; xmp_set_position adopts the
 		 * label as p->sequence and indexes p->scan[] / m->seq_data[] with it, so a stale label is reported here and the case
 		 * ends before the library reads past those tables */
-		int k, bad = -1;
-		for (k = 0; k < ctx->m.mod.len && k < XMP_MAX_MOD_LENGTH; k++)
-			if (ctx->p.sequence_control[k] != 0xff && ctx->p.sequence_control[k] >= ctx->m.num_sequences)
-				bad = k;
+		int bad = seqctl_bad_order(ctx);
 		if (bad >= 0) {
 			printf("O sequence:control_table order %d is labelled with sequence %d but the module has %d sequence(s) (xxo[%d] = %d)\nZ\n",
 			       bad, ctx->p.sequence_control[bad], ctx->m.num_sequences, bad, ctx->m.mod.xxo[bad]);
@@ -1733,6 +1919,14 @@ static int run_case(uint64_t cs, int nframes, const char *modname)
 		printf("D wf\nE w ? %d\n", c_ordwf(ctx));
 	else
 		printf("N unplayable 1\n");	/* every order skipped: xmp_start_player set len = 0, no frame can succeed */
+	/* the header speed the start-up takes over: C03's clause spdOK evaluated on the live module, and the scan recorded it
+	 * for the first playable order (Seq.StartSpeedAgrees, XmpProps.C16Start) */
+	if (ctx->m.mod.spd < 1 || ctx->m.mod.spd > 255)
+		printf("A spd mod->spd = %d after load is outside 1..255\n", ctx->m.mod.spd);
+	else if (ctx->m.mod.len > 0 && ctx->p.ord >= 0 && ctx->p.ord < XMP_MAX_MOD_LENGTH &&
+		 ctx->m.xxo_info[ctx->p.ord].speed != ctx->m.mod.spd)
+		printf("A startspeed xxo_info[%d].speed = %d but mod->spd = %d\n", ctx->p.ord, ctx->m.xxo_info[ctx->p.ord].speed,
+		       ctx->m.mod.spd);
 	/* start-up correspondence */
 	get_state(ctx, post);
 	printf("D start %d\n", speed0);
@@ -1773,6 +1967,12 @@ static int run_case(uint64_t cs, int nframes, const char *modname)
 					do_control(c, ctx, &stopped, -1);
 			}
 			prev_loop = -1;	/* "between position-control calls" */
+		}
+		if (vrng_chance(modesw_pct)) {
+			if (do_mode_switch(c, ctx, &stopped) < 0) {
+				fails++;
+				break;
+			}
 		}
 		if (vrng_chance(6)) {
 			do_inject(c, ctx);
@@ -1894,12 +2094,12 @@ static void print_stats(void)
 	printf("N frames %ld\nN ends %ld\nN ctl %ld\nN inject %ld\nN repos %ld\nN rowadv %ld\nN ordadv %ld\nN loopinc %ld\n"
 	       "N tfcalls %ld\nN capped %ld\nN minclamp %ld\nN st26 %ld\nN assume %ld\nN vops %ld\nN vdump %ld\nN reloc %ld\nN vfail %ld\nN steal %ld\n"
 	       "N ordwf_seq_rst %ld\nN ordwf_seq_entry %ld\nN ordwf_seq_reach %ld\nN ordwf_seq_fail %ld\nN tf_accepted %ld\nN tf_refused %ld\nN vfieldops %ld\nN vfielddump %ld\n"
-	       "N fx_calls %ld\nN fx_dumped %ld\nN fx_dumped_flowfx %ld\nN loopcarry_modules %ld\nN loopjump_beyond_pattern %ld\n"
+	       "N fx_calls %ld\nN fx_dumped %ld\nN fx_dumped_flowfx %ld\nN loopcarry_modules %ld\nN loopjump_beyond_pattern %ld\nN hostile_header_speed %ld\nN mode_switches %ld\nN mode_switches_accepted %ld\nN mode_switches_fewer_sequences %ld\nN mode_switches_from_last_sequence %ld\n"
 	       "N pbuf_calls %ld\nN pbuf_frames %ld\nN pbuf_end %ld\nN pbuf_end_looplimit %ld\nN pbuf_noframe %ld\nN pbuf_multiframe %ld\nN pbuf_steps_after_end %ld\nN pbuf_reset %ld\n",
 	       g_frames, g_ends, g_ctl, g_inject, g_repos, g_rowadv, g_ordadv, g_loopinc, g_tfcalls, g_capped, g_minclamp,
 	       g_st26, g_assume, g_stat_vops, g_stat_vdump, g_stat_reloc, g_stat_vfail, g_stat_steal, g_ow_rst, g_ow_entry,
 	       g_ow_reach, g_ow_fail, g_tf_acc, g_tf_ref, g_stat_fops, g_stat_fdump,
-	       g_fx_calls, g_fx_dumped, g_fx_flow_dumped, g_carry_modules, g_carry_jumps,
+	       g_fx_calls, g_fx_dumped, g_fx_flow_dumped, g_carry_modules, g_carry_jumps, g_hostile_spd, g_modesw, g_modesw_ok, g_modesw_seqdrop, g_modesw_lastseq,
 	       g_pb_calls, g_pb_frames, g_pb_end, g_pb_end_limit, g_pb_zero, g_pb_multi, g_pb_after_end, g_pb_reset);
 }
 
@@ -1907,6 +2107,11 @@ int main(int argc, char **argv)
 {
 	setvbuf(stdout, NULL, _IOFBF, 1 << 20);
 	g_fx_dump_pm = getenv("C16_FXPM") ? atoi(getenv("C16_FXPM")) : 250;
+	if (argc >= 2 && !strcmp(argv[1], "modeprobe")) {
+		g_fx_dump_pm = 0;
+		run_modeprobe();
+		return 0;
+	}
 	if (argc >= 6 && !strcmp(argv[1], "fxall")) {
 		/* fxall <seed> <first cfg> <ncfg> <thorough 0/1> */
 		int i0 = atoi(argv[3]), n = atoi(argv[4]), i;
